@@ -101,7 +101,10 @@ def run_contract(contract, src: SourceIndex, mode: str, quick=True, keep_models=
         info['status'] = 'undecided'
         info['reason'] = str(e)
         info['trace'] = traceback.format_exc(limit=6)
-        return [], info
+        # obligations generated before the unsupported construct was met are still decided (a failing one is reported)
+        eng.obligations = [o for o in eng.obligations if o.meta.get('definite')]
+        if not eng.obligations:
+            return [], info
     info['vcgen_s'] = round(time.time() - t0, 3)
     info['paths'] = eng.n_paths
     info['notes'] = sorted(set(eng.notes))
